@@ -158,6 +158,9 @@ func (c *PullClient) Open() (err error) {
 	}
 
 	defer func() {
+		if r := recover(); r != nil { // 握手过程中的 panic 同样按失败处理，不能遗留连接
+			err = fmt.Errorf("open pull stream panic; %v", r)
+		}
 		if err != nil { // 出现任何错误执行断链操作
 			c.disconnect()
 			c.conn = nil
@@ -229,6 +232,9 @@ func (c *PullClient) requestSDP() (err error) {
 	}
 
 	for _, media := range c.sdp.Media {
+		if len(media.Format) == 0 { // 没有任何格式描述的媒体段无法拉取
+			return fmt.Errorf("sdp media '%s' has no format", media.Type)
+		}
 		switch media.Type {
 		case "video":
 			c.vControl = media.Attributes.Get("control")
@@ -406,7 +412,7 @@ func (c *PullClient) getSetupURL(ctrl string) (setupURL *url.URL, err error) {
 
 	setupURL = new(url.URL)
 	*setupURL = *c.url
-	if setupURL.Path[len(setupURL.Path)-1] == '/' {
+	if strings.HasSuffix(setupURL.Path, "/") {
 		setupURL.Path = setupURL.Path + ctrl
 	} else {
 		setupURL.Path = setupURL.Path + "/" + ctrl
